@@ -92,7 +92,8 @@ pub fn scenarios(tier: Tier) -> Vec<Scenario> {
             spec.mws = 1;
             spec.mw_reads = true;
         }
-        let mut prog = producers(Program::new(spec), np, k, |_, id| Op::Dispatch(Act::new(id)));
+        // odd actions answer Keep (their state is still stored and read back)
+        let mut prog = producers(Program::new(spec), np, k, move |_, id| Op::Dispatch(Act::new(id).keep(if subs & 8 != 0 && id % 2 == 0 { 0b11 } else { 0 })));
         for rd in 0..readers {
             prog = prog.thread(&format!("r{}", rd), (0..nreads).map(|i| Op::GetState(i as i64)).collect());
         }
@@ -116,6 +117,8 @@ pub fn scenarios(tier: Tier) -> Vec<Scenario> {
             add(2, 2, 1, 1, 0, 2);
             add(1, 2, 1, 2, 4, 2);
             add(0, 0, 2, 1, 5, 2);
+            add(1, 2, 1, 3, 8, 2);
+            add(1, 2, 1, 2, 9, 2);
         }
         Tier::Thorough => {
             for subs in 0..=3u8 {
@@ -130,6 +133,9 @@ pub fn scenarios(tier: Tier) -> Vec<Scenario> {
             add(1, 2, 1, 2, 4, 3);
             add(1, 2, 2, 1, 5, 2);
             add(0, 0, 1, 2, 7, 2);
+            add(1, 3, 1, 3, 8, 3);
+            add(1, 2, 2, 2, 9, 2);
+            add(2, 2, 1, 3, 8, 2);
         }
     }
     v
